@@ -464,12 +464,15 @@ import lib_arb2_real as R
 LATE = 1.0
 
 
-def reload_scenario(cls, phase, hups=1, bind="unix", new_workers=3, d=1.6, two_binds=False, resize=None):
+def reload_scenario(cls, phase, hups=1, bind="unix", new_workers=3, d=1.6, two_binds=False, resize=None, swap_app=False):
     """-> (failures, trace).  failures starting with KNOWN:<key> are reported under that key.
     resize: "ttin" / "ttou" sent to the master (and the pool left to follow) before anything else: the reload must give
-    the newly configured number of workers whatever the number was before"""
+    the newly configured number of workers whatever the number was before
+    swap_app: the application is named by `wsgi_app` in the configuration file and the (last) reload names another one: the new
+    workers run the new configuration - all of it"""
     fails, tr = [], []
-    srv = R.Server(worker_class=cls, workers=2, graceful=6, bind=bind, marker="m0", keepalive=8, second_bind=two_binds)
+    srv = R.Server(worker_class=cls, workers=2, graceful=6, bind=bind, marker="m0", keepalive=8, second_bind=two_binds,
+                   app_in_conf=swap_app)
     load = None
     try:
         srv.start()
@@ -508,7 +511,12 @@ def reload_scenario(cls, phase, hups=1, bind="unix", new_workers=3, d=1.6, two_b
         marker = "m0"
         for h in range(hups):
             marker = "m%d" % (h + 1)
-            srv.write_conf(workers=new_workers if h == hups - 1 else 2, raw_env=["GV_MARKER=%s" % marker])
+            changes = dict(workers=new_workers if h == hups - 1 else 2, raw_env=["GV_MARKER=%s" % marker])
+            if swap_app and h == hups - 1:
+                changes["wsgi_app"] = "gvapp2:app"
+            srv.write_conf(**changes)
+            if swap_app and h == hups - 1:
+                marker += "-app2"
             srv.signal(_signal.SIGHUP, master)
             tr.append(("hup", h + 1, marker))
             if h < hups - 1:
@@ -572,7 +580,8 @@ def run_real(ctx):
         scns = [("sync", "app", 1, "unix", 3), ("gthread", "head", 2, "tcp", 1), ("sync", "idle", 2, "unix", 2), ("gevent", "resp", 1, "unix", 3),
                 ("gevent", "app", 1, "unix", 2, 1.6, True), ("eventlet", "app", 1, "tcp", 2, 1.6, True),
                 ("gthread", "app", 1, "unix", 2, 1.6, True), ("sync", "resp", 1, "unix", 2, 1.6, True),
-                ("sync", "app", 1, "unix", 2, 1.6, False, "ttin"), ("gthread", "keep", 1, "tcp", 2, 1.6, False, "ttou")]
+                ("sync", "app", 1, "unix", 2, 1.6, False, "ttin"), ("gthread", "keep", 1, "tcp", 2, 1.6, False, "ttou"),
+                ("sync", "head", 2, "unix", 3, 1.6, False, None, True)]
     else:
         scns = []
         for cls in ("sync", "gthread", "gevent", "eventlet"):
@@ -585,6 +594,8 @@ def run_real(ctx):
             scns.append((cls, "app", 1, "unix", 2, 1.6, False, "ttin"))
             scns.append((cls, "head", 2, "tcp", 2, 1.6, False, "ttou"))
             scns.append((cls, "resp", 1, "unix", 3, 1.6, False, "ttin"))
+            scns.append((cls, "app", 1, "tcp", 2, 1.6, False, None, True))
+            scns.append((cls, "idle", 2, "unix", 3, 1.6, False, None, True))
     results = [None] * len(scns)
 
     def work(i):
